@@ -16,7 +16,7 @@ object that existed before the step, and the bytes of its extent, are unchanged.
 from . import model as M, typegen
 from .core import exc_sig, quarantined
 
-KINDS = ["index_oob", "index_oob", "array_shape", "array_shape", "string_long", "string_long", "items_large", "items_large", "struct_partial", "union_nonmember", "union_nonmember", "ctx_mismatch", "offset_nobuf"]
+KINDS = ["index_oob", "index_oob", "array_shape", "array_shape", "array_dims", "string_long", "string_long", "items_large", "items_large", "struct_partial", "union_nonmember", "union_nonmember", "ctx_mismatch", "offset_nobuf"]
 
 
 def gen(gs, w):
@@ -100,7 +100,31 @@ def gen_array_shape(gs, w):
         if v is None:
             return None
         items.append(v)
-    return {"obj": o.k, "path": p, "value": {"l": items, "shape": new}, "via": gs._via(o)}
+    # the misfitting value as plain data, or as an xobject of the same array class (which may
+    # happen to have the same byte size although its shape differs)
+    return {"obj": o.k, "path": p, "value": {"l": items, "shape": new}, "as_obj": rng.random() < 0.35, "via": gs._via(o)}
+
+
+def gen_array_dims(gs, w):
+    """The dimensions form (an integer / a tuple of the dynamic dimensions) assigned to an
+    existing array whose shape it does not describe: the size of an instance cannot change."""
+    rng = gs.rng
+    got = gs._pick_path(w, lambda s, t, n, p: s[t]["k"] == "array" and any(d is None for d in s[t]["shape"]) and not typegen.is_dynamic(s, s[t]["item"]))
+    if got is None:
+        return None
+    o, p, t, n = got
+    ty = w.schema[t]
+    dyn = [i for i, d in enumerate(ty["shape"]) if d is None]
+    cur = [n.shape[i] for i in dyn]
+    total = 1
+    for d in n.shape:
+        total *= d
+    cand = [[c + rng.choice([1, 2, 5]) for c in cur], [max(0, c - 1) for c in cur]]
+    if len(dyn) == 1:
+        cand.append([total])  # the item count is not the length of the dynamic dimension (N-D arrays)
+        cand.append([total + 1])
+    dims = rng.choice([c for c in cand if c != cur] or [[cur[0] + 1] + cur[1:]])
+    return {"obj": o.k, "path": p, "dims": dims, "via": gs._via(o)}
 
 
 def _plain(gs, w, t, depth=0):
@@ -313,6 +337,13 @@ def run(step):
                     raise Skip()
                 if kind == "array_shape" and (w.schema[t]["k"] != "array" or tuple(vnode.shape) == tuple(node.shape)):
                     raise Skip()
+                if kind == "array_shape" and op.get("as_obj"):
+                    try:
+                        py = w.classes[t](py, _context=xo.ContextCpu())
+                    except Exception:
+                        raise Skip()  # the other shape is not a value of this array type at all
+                    if tuple(int(d) for d in py._shape) == tuple(node.shape):
+                        raise Skip()  # (a static shape absorbed the list: the object fits after all)
                 if kind == "string_long" and (w.schema[t]["k"] != "str" or node.cap is None or len(vnode.text.encode()) + 1 <= node.cap):
                     raise Skip()
                 if kind == "struct_partial":
@@ -324,6 +355,23 @@ def run(step):
                         raise Skip()
                     if not any(a.cap is not None and len(b.text.encode()) + 1 > a.cap for a, b in zip(node.items, vnode.items)):
                         raise Skip()
+                holder = o.walk(path[:-1], start)
+                last = path[-1]
+
+                def call():
+                    if isinstance(last, str):
+                        setattr(holder, last, py)
+                    else:
+                        holder[tuple(last) if len(last) > 1 else last[0]] = py
+
+            elif kind == "array_dims":
+                if w.schema[t]["k"] != "array" or not path:
+                    raise Skip()
+                ty = w.schema[t]
+                dyn = [i for i, d in enumerate(ty["shape"]) if d is None]
+                if len(dyn) != len(op["dims"]) or [node.shape[i] for i in dyn] == list(op["dims"]):
+                    raise Skip()
+                py = int(op["dims"][0]) if len(dyn) == 1 else tuple(int(d) for d in op["dims"])
                 holder = o.walk(path[:-1], start)
                 last = path[-1]
 
